@@ -107,6 +107,64 @@ theorem den_dotOk {p s : Str} (h : Den dotOk p s) (hp : ∀ c ∈ p, dotOk c = t
         subst this; exact hp d (by simp)
     · exact ih (fun d hd => hp d (by simp [hd])) d hd
 
+/-! ### counting literal newlines -/
+
+/-- number of newline characters -/
+def nl : Str → Nat
+  | [] => 0
+  | c :: s => (if c == '\n' then 1 else 0) + nl s
+
+theorem nl_append (a b : Str) : nl (a ++ b) = nl a + nl b := by
+  induction a with
+  | nil => simp [nl]
+  | cons c a ih => simp [nl, ih]; omega
+
+theorem nl_zero_of_dotOk {w : Str} (h : ∀ c ∈ w, dotOk c = true) : nl w = 0 := by
+  induction w with
+  | nil => rfl
+  | cons c w ih =>
+    have hc : dotOk c = true := h c (by simp)
+    have : (c == '\n') = false := by simpa [dotOk] using hc
+    simp [nl, this, ih (fun d hd => h d (by simp [hd]))]
+
+theorem isStar_ne_nl {p : Char} (h : isStar p = true) : (p == '\n') = false := by
+  unfold isStar at h
+  simp only [Bool.or_eq_true, beq_iff_eq] at h
+  rcases h with rfl | rfl <;> decide
+
+/-- a name matching a pattern has exactly as many newlines as the pattern has literal newlines:
+wildcards never produce one -/
+theorem nl_of_den {p s : Str} (h : Den dotOk p s) : nl s = nl p := by
+  induction h with
+  | nil => rfl
+  | @star p ps w s hp hw _ ih =>
+    rw [nl_append, nl_zero_of_dotOk hw, ih]; simp [nl, isStar_ne_nl hp]
+  | @one p c ps s _ hc _ ih =>
+    unfold charOk at hc
+    by_cases hq : (p == '?') = true
+    · have hp : p = '?' := by simpa using hq
+      have hc' : (c == '\n') = false := by simpa [hq, dotOk] using hc
+      subst hp
+      simp [nl, hc', ih]
+    · have : c = p := by simpa [hq] using hc
+      subst this; simp [nl, ih]
+
+/-- in the "more specific" alignment the candidate has at least the newlines of the pattern; the
+surplus is exactly the newlines absorbed by `?` -/
+theorem nl_le_of_den_q {p q : Str} (h : Den qOk p q) : nl p ≤ nl q := by
+  induction h with
+  | nil => exact Nat.le_refl _
+  | @star p ps w s hp hw _ ih =>
+    rw [nl_append, nl_zero_of_dotOk hw]; simp [nl, isStar_ne_nl hp]; exact ih
+  | @one p c ps s _ hc _ ih =>
+    unfold charOk at hc
+    by_cases hq : (p == '?') = true
+    · have hp : p = '?' := by simpa using hq
+      subst hp
+      simp only [nl]; simp; omega
+    · have : c = p := by simpa [hq] using hc
+      subst this; simp only [nl]; omega
+
 /-! ### normalizePattern preserves the language -/
 
 theorem den_congr_head {q : Char → Bool} {p p' : Char} {ps s : Str}
